@@ -82,6 +82,44 @@ class RingAlg:
     def sqrt(self, a):
         raise NotImplementedError("sqrt in the polynomial ring algebra")
 
+    def sqrt_number(self, x):
+        """np.sqrt(2.0): the generator `sqrt2` (relation sqrt2**2 = 2 applied by the caller)"""
+        if float(x) == 2.0 and "sqrt2" in self.gens:
+            return self.gens["sqrt2"]
+        import math
+        r = math.isqrt(int(x)) if float(x) == int(x) and x >= 0 else None
+        if r is not None and r * r == int(x):
+            return self.const(r)
+        raise NotImplementedError("sqrt(%r) in the polynomial ring algebra" % (x,))
+
+    def truediv(self, a, b):
+        a, b = self._c(a), self._c(b)
+        if b.is_ground:
+            return a * self.R(1 / b.coeff(1))
+        if "sqrt2" in self.gens and b == self.gens["sqrt2"]:
+            return a * self.gens["sqrt2"] * self.const(Fraction(1, 2))
+        q, r = divmod(a, b)
+        if r != 0:
+            raise TypeError("inexact division in the polynomial ring algebra")
+        return q
+
+    def conj(self, a):
+        """complex conjugate of the coefficients (generators are real quantities)"""
+        a = self._c(a)
+        if self.dom is not QQ_I:
+            return a
+        out = self.R(0)
+        for mon, cf in a.terms():
+            out = out + self.R({mon: QQ_I(cf.x, -cf.y)})
+        return out
+
+    def reduce_sqrt2(self, a):
+        a = self._c(a)
+        if "sqrt2" not in self.gens:
+            return a
+        s2 = self.gens["sqrt2"]
+        return a.rem([s2 * s2 - 2])
+
     def pow(self, a, n):
         raise NotImplementedError
 
